@@ -31,6 +31,9 @@ This module ties the model to the real server over TCP:
   time-limit  ONLY when the source installs a run-time limit (Gen.luaScriptTimeLimit > 0, re-read on every run): non-terminating
             scripts (plain, after writes, with pcall, in coroutines, by EVALSHA), each on a dedicated server: error reply within
             the limit + slack, earlier effects in place, server alive and serving; a long finite script is undisturbed.
+            When the source also bounds a script's memory (Gen.luaScriptMemoryLimit > 0): allocating scripts (memory bomb, doubling
+            concatenation, table growth, loops of expensive C calls / instructions on huge strings), same requirements.  Every
+            server of this layer runs with its address space capped at 3 GiB (RLIMIT_AS).
 
 Never sent: non-terminating scripts while NO time limit exists (then the finding is confirmed from the source only, DESIGN
 row 12), SHUTDOWN, DEBUG, SLEEP, REPLICAOF, CLIENT PAUSE/KILL, CONFIG SET.
@@ -1907,6 +1910,27 @@ LOOP_SCRIPTS = [
     ("evalsha-loop", "while true do end -- by hash", True),
     ("finite-long", "local x = 0 for i = 1, 20000000 do x = x + i end return x", False),
 ]
+W = "redis.call('SET','done','1') redis.call('RPUSH','q','a','b') "
+MEMORY_SCRIPTS = [
+    # sent ONLY when the source also bounds a script's memory (Gen.luaScriptMemoryLimit > 0), always to an address-space-capped server
+    ("memory-bomb", W + "local t={} while true do t[#t+1]=string.rep('x',1000000)..#t end", True),
+    ("string-rep-2^31", W + "return #string.rep('x', 2^31)", None),          # error or a reply: must just come back at once
+    ("doubling-concat", W + "local s='x' while true do s=s..s end", True),
+    ("table-growth", W + "local t={} local i=0 while true do i=i+1 t[i]=i end", True),
+    ("pcall-bomb-loop", W + "while true do pcall(function() local t={} while true do t[#t+1]=string.rep('x',1000000)..#t end end) end", True),
+    ("coroutine-bomb", W + "local co = coroutine.wrap(function() local t={} while true do t[#t+1]=string.rep('x',1000000)..#t end end) co()", True),
+    ("expensive-ccall-loop", W + "while true do string.rep('x', 300000000) end", True),
+    ("expensive-concat-loop", W + "local s = string.rep('x', 200000000) while true do local u = s..'y' end", True),
+    ("expensive-upper-loop", W + "local s = string.rep('x', 200000000) while true do s:upper() end", True),
+    ("big-value-under-the-limit", W + "local s = string.rep('x', 100000000) return #s", False),
+]
+AS_CAP = 3 << 30
+
+
+def cap_address_space():
+    """preexec of a dedicated server that is given an allocating script: the process may never take more than 3 GiB"""
+    import resource
+    resource.setrlimit(resource.RLIMIT_AS, (AS_CAP, AS_CAP))
 
 
 def layer_time_limit(ck):
@@ -1925,10 +1949,18 @@ def layer_time_limit(ck):
     limit = limit_ms / 1000.0
     slack = 4.0
     results = []
+    mem_limit = ck.facts.get("memory_limit")
+    rep.extra["script_memory_limit_bytes"] = mem_limit
+    cases = list(LOOP_SCRIPTS)
+    if mem_limit:
+        cases += MEMORY_SCRIPTS
+    elif mem_limit == 0:
+        # nothing bounds a script's memory: allocating scripts are not sent; C06 owns that finding (C06-lua-memory-unbounded)
+        rep.count("time-limit.memory-cases-not-sent-no-memory-limit")
 
     def run(tag, src, must_fail):
-        out = {"case": tag, "script": src, "limit_s": limit}
-        srv = Server("c12l")
+        out = {"case": tag, "script": src, "limit_s": limit, "memory_limit_bytes": mem_limit, "address_space_cap": AS_CAP}
+        srv = Server("c12l", preexec_fn=cap_address_space)
         try:
             c, c2 = srv.client(timeout=limit + slack + 5), srv.client()
             c.cmd("SELECT", "3")
@@ -1953,18 +1985,21 @@ def layer_time_limit(ck):
             except (TimeoutError, Closed, ProtocolError, OSError) as e:
                 out["other_connection"] = "not served: " + type(e).__name__
             bad = []
-            if must_fail:
+            if must_fail is None:
+                if got[0] == "no-reply":
+                    bad.append("no reply within the limit + %.0f s" % slack)
+            elif must_fail:
                 if got[0] != "e":
                     bad.append("no error reply within the limit + %.0f s" % slack)
-                elif out["seconds"] < limit - 0.5:
+                elif out["seconds"] < limit - 0.5 and b"memory" not in str(got).encode():
                     bad.append("ended before the limit")
             elif got[0] != "i":
-                bad.append("a finite script under the limit was disturbed")
+                bad.append("a finite script under the limits was disturbed")
             if not out["server_alive"] or out.get("other_connection") != "('s', b'PONG')":
                 bad.append("the server does not serve other connections afterwards")
             if got[0] != "no-reply" and out.get("next_script_same_connection") != "('i', 1)":
                 bad.append("the next script on the same connection did not run normally")
-            if tag == "write-then-loop" and (out.get("done") != "('b', b'1')" or out.get("q") != "('a', [('b', b'a'), ('b', b'b')])"):
+            if (tag == "write-then-loop" or src.startswith(W)) and (out.get("done") != "('b', b'1')" or out.get("q") != "('a', [('b', b'a'), ('b', b'b')])"):
                 bad.append("the effects of the calls completed before the limit did not persist")
             if tag == "calls-in-loop" and not (isinstance(out.get("n"), tuple) and out["n"][0] == "b" and int(out["n"][1]) > 0):
                 bad.append("the effects of the calls completed before the limit did not persist")
@@ -1975,7 +2010,7 @@ def layer_time_limit(ck):
         finally:
             srv.stop()
         results.append(out)
-    ts = [threading.Thread(target=run, args=x) for x in LOOP_SCRIPTS]
+    ts = [threading.Thread(target=run, args=x) for x in cases]
     for t in ts:
         t.start()
     for t in ts:
@@ -1986,7 +2021,7 @@ def layer_time_limit(ck):
         rep.nontrivial(("time-limit", out["case"], not out["bad"]))
         if out["bad"]:
             ck.fail("time-limit", "%s: %s" % (out["case"], "; ".join(out["bad"])), dict(out, layer="time-limit"))
-    if len(results) != len(LOOP_SCRIPTS):
+    if len(results) != len(cases):
         ck.fail("time-limit", "a time-limit case did not finish (server wedged?)", {"finished": [o["case"] for o in results]})
     rep.extra["time_limit_cases"] = {o["case"]: o.get("seconds") for o in results}
 
